@@ -14,6 +14,11 @@ pub const ALL: &[Kind] = &ALL_KINDS;
 /// writes that overlap bytes 4..8 are moved to the OEM id (construction).
 pub fn sanitize(p: &Program) -> Program {
     let mut q = p.clone();
+    if q.kind == Kind::Fadt {
+        // likewise a direct write to the FADT builder's pub `length` field (index 43)
+        q.ops.retain(|o| !matches!(o, Op::Fadt(FadtSet::Field(43, _))));
+        return q;
+    }
     if q.kind != Kind::Sdt {
         return q;
     }
